@@ -19,7 +19,10 @@ SPEC = {
                   "injective hash pre-images; one output per target as in the history model); C32_interleaving: concurrent steps reduce to "
                   "per-target cuts. C32_recover: the next plain build of the same tree succeeds at the first attempt (post-build targets "
                   "included: C32_metadata_never_truncated), leaves exactly the clean outputs and is stable; C32_recover_repeated: after any "
-                  "number of kills in a row. C32_before_fix_*: kernel-checked witnesses of the three former findings for the OLD order "
+                  "number of kills in a row. C32_unverified_never_trusted: the step of a target whose outputs fail their "
+                  "declared hashes (clean build fails, Build removes the outputs) never leaves, at any cut of the failure path, a state the "
+                  "next build accepts — by the regenerated order verify -> record in calculateAndCheckRuleHash; "
+                  "C32_witness_stamp_before_verify refutes the other order. C32_before_fix_*: kernel-checked witnesses of the three former findings for the OLD order "
                   "(theorems that held then: Lemmas/CrashUnrepaired.lean); C32_witnesses_closed: the same scenarios under the regenerated "
                   "order. C32_writeFile_atomic: every cut of fs.WriteFile leaves the destination old or complete. Left out of the model: "
                   "cache RETRIEVAL (C12/C02; every lookup is a miss), targets without outputs, the post-build function's own effect, remote "
@@ -30,7 +33,7 @@ SPEC = {
                  "real plz binary killed at every filesystem operation of the build step (verif hook) and at seeded instants",
     "trusted": [
         "go/ast extractor harness/extract/c32 (order of StoreTargetMetadata / moveOutputs / calculateAndCheckRuleHash->writeRuleHash / "
-        "storeInCache after the command in buildTarget, preceded by removeRuleHash (every FullOutput -> fs.RemoveAttr = remove fallback record + LRemove); old outputs re-hashed with recalc=true before the command; call order inside StoreTargetMetadata, moveOutput (keep-old return before "
+        "storeInCache after the command in buildTarget, preceded by removeRuleHash (every FullOutput -> fs.RemoveAttr = remove fallback record + LRemove); old outputs re-hashed with recalc=true before the command; inside calculateAndCheckRuleHash: OutputHash, checkRuleHashes (error returned under VerifyHashes), writeRuleHash, Chmod; call order inside StoreTargetMetadata, moveOutput (keep-old return before "
         "RemoveAll), writeRuleHash (every output, then the metadata file), the read-back loop of readRuleHashFromXattrs, needsBuilding's "
         "metadata and output guards, Build -> RemoveOutputs on failure, RecordAttrFile = os.WriteFile on dir+\".rule_hash_\"+file, "
         "fs.WriteFile: MkdirAll/CreateTemp(dir of destination)/Copy/Close/Chmod/renameFile(temp, dest))",
@@ -38,7 +41,8 @@ SPEC = {
         "absent/empty/partial/full, each output's content class and stamp class) after SIGKILL at hook point k (+ j emulated inner steps), "
         "and what the next build does (skip / rebuild / fail+second attempt, final tree clean or stale), also after a SECOND kill of "
         "the recovery attempt (crash2), file / directory / symlink outputs, xattr and fallback modes, with and without a dir cache and a "
-        "post-build function; fs.WriteFile destination and "
+        "post-build function, with declared hashes that match (g) or do not match the interrupted tree (b: the clean build "
+        "fails, so must the build after the crash; kill points over the whole failure path incl. fail-remove-outputs); fs.WriteFile destination and "
         "temporary (content AND mode) after the reader died at byte N for every N and after a crash at the points close / rename / "
         "renamed of WriteFile itself (hook src/fs/c32_verif.go; in-process panic or SIGKILL of a re-executed child); encoding/gob on "
         "every strict prefix of an encoded BuildMetadata; truncated fallback records of every length",
@@ -89,6 +93,9 @@ M6 buildTarget: the call removeRuleHash(target) removed again (re-introduces the
 M7 (independently written) fs.WriteFile renames the temporary first and chmods the destination afterwards
    -> exit 1: C32_facts_ok fails (writeFileCalls / writeFileChmodArgs); direct oracle: `wf 6f6c64 616263 0 2 4 renamed-p` leaves the
       destination complete with mode 0600 (class writefile-destination-complete-with-wrong-mode) -> VIOLATION with that replay.
+M8 (independently written) calculateAndCheckRuleHash verifies the declared hashes LAST, after writeRuleHash and the binary chmod
+   -> exit 1: C32_facts_ok fails (verifyThenStamp); direct oracle: `crash x n b f old:1 11 0 same` (kill after stamp-out, before
+      fail-remove-outputs) leaves o0=c1/s1, the next build skips (class unverified-output-trusted-after-crash) -> VIOLATION with that replay.
 Dry-runs of the repair itself: ./check baseline on the patched copy 347/347; VERIF_REPO=<patched copy> ./check C01|C02|C03 quick green
 (facts regenerated, 0 disagreements); C32 on the patched binary: 0 oracle failures, model agrees.
 """
